@@ -327,7 +327,9 @@ class Translator:
                         raise Unsupported('large global array')
                     zero = word(0, w)
                     if t.el_type == DT.STRING:
-                        raise Unsupported('global string array initializer')
+                        # elements start as the zero word, which denotes no string: a program of the defined envelope
+                        # assigns an element before it uses it (as for dynamic local arrays)
+                        self.features.add('global_string_array')
                     store.append(arr_rec(str(t.el_type), False, [zero] * n))
                 elif isinstance(init, A.ArrayLiteral):
                     vals = []
